@@ -14,7 +14,7 @@ def emptyS (op : OpInst) : SDir → Prop
   | .region i .single => seg op.regions i = [0]
   | .region i _ => seg op.regions i = []
   | .succ i _ => seg op.succs i = []
-  | .attr name isProp _ _ dflt =>
+  | .attr name isProp _ dflt =>
     dictGet isProp op name = none ∨ (dflt.isSome = true ∧ dictGet isProp op name = dflt)
   | .unitAttr name isProp _ => dictGet isProp op name = none
   | _ => True
@@ -70,7 +70,7 @@ theorem present_print (D : Defs) (op : OpInst) (a : SDir) (hok : okFirst a = tru
   | succ i k =>
     simp only [presentS, printS] at hp ⊢
     cases hx : seg op.succs i <;> simp_all [commaSep]
-  | attr name isProp optional optParse dflt =>
+  | attr name isProp optional dflt =>
     simp only [presentS, printS] at hp ⊢
     cases hg : dictGet isProp op name with
     | none => simp [hg] at hp
@@ -87,7 +87,7 @@ theorem present_print (D : Defs) (op : OpInst) (a : SDir) (hok : okFirst a = tru
 
 /-- first element of a taken group: `parse_optional` returns True -/
 theorem parseOptS_present (D : Defs) (op : OpInst) (f : SDir) (rest : List Tok) (st : PState)
-    (hfrag : inFragment f = true) (hok : okFirst f = true) (hshape : okShape f = true)
+    (hfrag : inFragment f = true) (hok : okFirst f = true)
     (hinst : okInst op f) (hf : FollowOK f rest) (hne : printS D op f ≠ []) :
     parseOptS D f (printS D op f ++ rest) st = some (true, replayS D op f st, rest) := by
   cases f with
@@ -167,11 +167,9 @@ theorem parseOptS_present (D : Defs) (op : OpInst) (f : SDir) (rest : List Tok) 
       cases hx : seg op.succs i with
       | nil => exact absurd hx hne'
       | cons x xs => simp [parseOptS, parseS, printS, replayS, hx ▸ this, hx]
-  | attr name isProp optional optParse dflt =>
+  | attr name isProp optional dflt =>
     simp only [okFirst] at hok
-    simp only [okShape, beq_iff_eq] at hshape
     subst hok
-    subst hshape
     simp only [printS] at hne
     cases hg : dictGet isProp op name with
     | none => simp [hg] at hne
@@ -189,7 +187,7 @@ theorem parseOptS_present (D : Defs) (op : OpInst) (f : SDir) (rest : List Tok) 
 
 /-- first element of an untaken group: `parse_optional` returns False and consumes nothing -/
 theorem parseOptS_absent (D : Defs) (op : OpInst) (f : SDir) (toks : List Tok) (st : PState)
-    (hok : okFirst f = true) (hshape : okShape f = true)
+    (hok : okFirst f = true)
     (hempty : emptyS op f) (hc : conflict f (clsHd toks) = false) :
     parseOptS D f toks st = some (false, replayS D op f st, toks) := by
   cases f with
@@ -247,12 +245,10 @@ theorem parseOptS_absent (D : Defs) (op : OpInst) (f : SDir) (toks : List Tok) (
     | single => simp [okFirst, kindNullable] at hok
     | opt => simp [parseOptS, parseS, replayS, hempty, optOne_none badNone toks hp]
     | var => simp [parseOptS, parseS, replayS, hempty, optList_nil badNone toks hp]
-  | attr name isProp optional optParse dflt =>
+  | attr name isProp optional dflt =>
     have hp := passes_attr (rest := toks) (by simpa [conflict] using hc)
     simp only [okFirst] at hok
-    simp only [okShape, beq_iff_eq] at hshape
     subst hok
-    subst hshape
     simp only [emptyS] at hempty
     rcases hempty with hg | ⟨hd, hg⟩
     · simp [parseOptS, parseS, replayS, hg, optOne_none badAttr toks hp]
